@@ -225,7 +225,78 @@ def shrink_case(ctx, case, check, sig):
         shutil.rmtree(work, ignore_errors=True)
 
 
+# ---- known findings: identifiers of the model that collide with identifiers the generator introduces
+
+def _collision_cases():
+    def ev(name, d, ret, formals):
+        return {'name': name, 'dir': d, 'ret': ret,
+                'formals': [{'name': n, 'type': ['Info'], 'dir': fd} for n, fd in formals]}
+
+    def port(n, t, d):
+        return {'name': n, 'type': [t], 'dir': d, 'injected': False}
+
+    def base(ports, itfs, mc=None):
+        model = {'root': [{'k': 'extern', 'name': ['Info'], 'value': '::xt::T0'},
+                          {'k': 'enum', 'name': ['Result'], 'fields': ['Ok', 'Fail']}], 'wd': '/w'}
+        for iname, evs in itfs.items():
+            model['root'].append({'k': 'interface', 'name': [iname], 'types': [], 'events': evs})
+        model['root'].append({'k': 'ns', 'ids': ['My'], 'elems': [
+            {'k': 'component', 'name': ['Toaster'], 'ports': ports}]})
+        spec = {'filename': '/x/Toaster.dzn', 'suffix': 'Shell', 'enc': ['My', 'Toaster'],
+                'prov': {'sts': 'NONE', 'mts': 'ALL'}, 'req': {'sts': 'NONE', 'mts': 'ALL'}, 'mc': mc,
+                'origin': 'CREATE', 'copyright': 'c', 'creator': None, 'prefix': None}
+        return {'sm': {'model': model, 'enc': ['My', 'Toaster'], 'enc_kind': 'component',
+                       'features': []}, 'spec': spec,
+                'semantics': {p['name']: 'MTS' for p in ports}, 'order': [0, 1, 2], 'cross': None}
+    out = {'ports-api-Api': base([port('api', 'IA', 'provides'), port('Api', 'IA', 'provides')],
+                                 {'IA': [ev('Do', 'in', ['void'], []), ev('Done', 'out', ['void'], [])]})}
+    for nm in ('r', 'identifier', 'lockAndData', 'm_dispatcher', 'm_encapsulee'):
+        itfs = {'IA': [ev('Claim', 'in', ['Result'], [(nm, 'in')]),
+                       ev('Release', 'in', ['void'], [(nm, 'inout')]),
+                       ev('Other', 'in', ['void'], [(nm, 'out')]), ev('Ev', 'out', ['void'], [(nm, 'in')])],
+                'IB': [ev('On', 'in', ['void'], [(nm, 'in')]), ev('Trip', 'out', ['void'], [(nm, 'in')])]}
+        out['formal-' + nm] = base([port('api', 'IA', 'provides'), port('hw', 'IB', 'requires')], itfs,
+                                   mc={'port': 'api', 'claim': 'Claim', 'grant': ['Ok'],
+                                       'release': 'Release'})
+    return out
+
+
+def run_collisions(ctx):
+    """Six fixed inputs that are well-formed Dezyne but whose identifiers collide with names the
+    generator introduces.  They are genuine defects recorded in known_findings.txt (not repaired: the
+    repair is a naming scheme, not a small patch) and excluded from the generators; this clause keeps
+    them visible and notices when one of them starts to fail differently."""
+    name = 'identifier_collisions'
+    ctx.clauses_run.append(name)
+    cases = _collision_cases()
+    if ctx.replay is not None:
+        if ctx.replay.get('clause') == name:
+            key = ctx.replay['case']['input']
+            try:
+                check_case(cases[key])
+            except Fail as f:
+                ctx.add_violation(name, Fail(f.msg, f'{key}:{f.sig}'), {'input': key})
+        return
+
+    def job(kv):
+        key, case = kv
+        d = tempfile.mkdtemp(prefix='vf_c06_coll_')
+        try:
+            check_case(case, d)
+            return key, None
+        except Fail as f:
+            return key, f
+        finally:
+            shutil.rmtree(d, ignore_errors=True)
+    with ThreadPoolExecutor(max_workers=6) as ex:
+        for key, f in ex.map(job, cases.items()):
+            ctx.record({'input': key}, True, ['collision-input'])
+            if f is not None:
+                ctx.add_violation(name, Fail(f.msg, f'{key}:{f.sig}'), {'input': key})
+
+
 def run(ctx):
+    run_collisions(ctx)
     name = 'compiles'
     ctx.clauses_run.append(name)
     if ctx.replay is not None:
@@ -234,7 +305,7 @@ def run(ctx):
         return
     from vf.draw import draw_cases
     from vf.runner import load_regress
-    cases = load_regress(ctx.prop, name) + draw_cases(case_strategy(), 20 if ctx.quick else 300,
+    cases = load_regress(ctx.prop, name) + draw_cases(case_strategy(), 16 if ctx.quick else 300,
                                                       ctx.seed)
     for c in cases:
         ctx.record(c, nontrivial(c), labels(c))
